@@ -115,7 +115,9 @@ func (m *Mem) Read(a uint16) (v uint8, mask uint8) {
 	case 0xff07:
 		return m.Timer.ReadTAC(), 0xff
 	case 0xff0f:
-		return 0xe0 | m.IF, 0xff &^ m.IFDirty
+		// a request bit that is set stays set until it is written or dispatched; only the bits that
+		// are clear and that the hardware may have set since are not determined
+		return 0xe0 | m.IF, 0xff &^ (m.IFDirty &^ m.IF)
 	case 0xff40:
 		return m.LCDC, 0xff
 	case 0xff41:
